@@ -86,11 +86,11 @@ func VP_C09_charstring_roundtrip() {
 	g := vpContourGlyph(vpParam("CMDS", 3))
 	g.WidthX = vpI16("wx")
 	wy := int32(0)
-	if vpChoose("vertical", 2) == 1 {
+	if vpParam("VERT", 1) == 1 && vpChoose("vertical", 2) == 1 {
 		wy = int32(vpInt16("wy"))
 		g.WidthY = float64(wy)
 	}
-	if vpChoose("stems", 2) == 1 {
+	if vpParam("STEMS", 1) == 1 && vpChoose("stems", 2) == 1 {
 		g.HStem = []funit.Int16{funit.Int16(vpI8("h0")), funit.Int16(vpI8("h1"))}
 		g.VStem = []funit.Int16{funit.Int16(vpI8("v0")), funit.Int16(vpI8("v1"))}
 	}
